@@ -443,6 +443,7 @@ func newCacheSeqSpecFrom(name string, cfg CacheCfg, defAtStart time.Duration, cb
 // bounded by iterations, not by a time-out oracle.
 func waitJanitorsIdle() bool {
 	buf := make([]byte, 1<<20)
+	stuck := 0
 	for iter := 0; iter < 200000; iter++ {
 		n := runtime.Stack(buf, true)
 		for n == len(buf) {
@@ -460,11 +461,21 @@ func waitJanitorsIdle() bool {
 			}
 			if !strings.Contains(hdr, "[select") {
 				busy = true
+				// waiting for a lock / semaphore / channel other than its select: nobody is left who could
+				// release it (the calling goroutine is the only other party and it is here, polling)
+				if strings.Contains(hdr, "[sync.") || strings.Contains(hdr, "[semacquire") || strings.Contains(hdr, "[chan ") {
+					stuck++
+				} else {
+					stuck = 0
+				}
 				break
 			}
 		}
 		if !busy {
 			return true
+		}
+		if stuck >= 200 {
+			return false
 		}
 		runtime.Gosched()
 	}
